@@ -97,7 +97,7 @@ class RefDEVS:
             self.obs.append((action[1], action[2],
                              action[3] if len(action) > 3 else None, self.clock))
             out = None
-        elif kind in ("obsdraw", "draw", "fire", "noop"):
+        elif kind in ("obsdraw", "draw", "fire", "noop", "nested"):
             out = None
         else:
             raise ValueError("unknown action %r" % (action,))
@@ -203,6 +203,10 @@ class RefDEVS:
         if announce_always or t != self.clock:
             self._announce(t)
         self.clock = t
+        if eid in self.p.get("badsig", ()):
+            # scheduled with a keyword the handler does not take: the call fails
+            # before the handler runs (nothing of it is executed or recorded)
+            return True
         self.trace.append((t, eid))
         failed = False
         if eid == "W":
